@@ -94,12 +94,18 @@ func c06Structural(c *rt.C, env *codecEnv, m *dynamicpb.Message, rng *rand.Rand,
 	tm := env.model.msg(string(md.FullName()))
 	w := walkDoc(env.model, tree, tm)
 	c06Decode(c, env, md, b, "canonical")
+	// every mutation re-decodes the whole document: bound the bytes decoded per message (≈ 25 MB), not only the count
+	if byBytes := 25_000_000 / (len(b) + 1); budget > byBytes {
+		budget = byBytes
+	}
+	// large documents (long byte strings in every container): the per-site extras below are sampled, 1 site in `thin`
+	thin := len(b)/20000 + 1
 	for _, s := range w.sites {
 		if s.holder == nil {
 			continue
 		}
 		for _, rep := range c06Replacements {
-			if budget <= 0 && rng.Intn(20) != 0 {
+			if budget <= 0 && rng.Intn(20*thin) != 0 {
 				continue
 			}
 			budget--
@@ -112,6 +118,9 @@ func c06Structural(c *rt.C, env *codecEnv, m *dynamicpb.Message, rng *rand.Rand,
 				class = "null:" + s.pos
 			}
 			c06Decode(c, env, md, doc, class)
+		}
+		if thin > 1 && rng.Intn(thin) != 0 {
+			continue
 		}
 		// oneof bodies: "!type" only / odd "!type"
 		if s.kind == kOneof || s.kind == "exposed-oneof" {
@@ -336,6 +345,49 @@ message V {
 			}
 		})
 	}
+
+	// --- the same types through a second instance of their descriptors, on one codec ---------------------------
+	// (a registry reloaded beside the first: same full names, different descriptor objects)
+	r.Do("sink/second-descriptor-instance", func(c *rt.C) {
+		env := sinkEnv()
+		rng := c.Rand()
+		ct2, err := compileProtoText(env.ct.Sources)
+		if err != nil {
+			panic("harness: recompiling the sink model: " + err.Error())
+		}
+		for _, root := range env.roots {
+			md1, md2 := env.ct.message(root), ct2.message(root)
+			if md1 == nil || md2 == nil || md1 == md2 {
+				panic("harness: second descriptor instance of " + root)
+			}
+			g := env.gen(rng, 0, nil)
+			g.maxDepth = 1
+			var docs [][]byte
+			for i := 0; i < 3; i++ {
+				m := g.message(root, 0)
+				if b, err := env.codec.ProtoToJSON(m); err == nil {
+					docs = append(docs, b)
+				}
+			}
+			docs = append(docs, []byte("{}"), []byte(`{"zzUnknown":1}`))
+			for _, doc := range docs {
+				for _, md := range []protoreflect.MessageDescriptor{md1, md2, md1, md2} {
+					c06Decode(c, env, md, doc, "second-descriptor-instance")
+				}
+				// encode what the second instance decodes to
+				m2 := dynamicpb.NewMessage(md2)
+				if ok, _, _, _ := rt.Guard(func() { err = env.codec.JSONToProto(doc, m2) }); ok && err == nil {
+					ok, pv, fn, st := rt.Guard(func() { _, err = env.codec.ProtoToJSON(m2) })
+					if !ok {
+						c.Violate("encode-panic/"+fn, fmt.Sprintf("ProtoToJSON panicked on a %s built from a second instance of its descriptor: %v", root, pv), map[string]any{"type": root, "input": string(doc), "stack": st})
+					}
+				}
+			}
+			c06Query(c, env, md1, url.Values{}, "second-descriptor-instance-query")
+			c06Query(c, env, md2, url.Values{}, "second-descriptor-instance-query")
+			c06Query(c, env, md2, url.Values{"zzUnknown": {"1"}}, "second-descriptor-instance-query")
+		}
+	})
 
 	// --- shape-free hostile inputs for every type ------------------------------------------------------
 	r.Do("sink/hostile", func(c *rt.C) {
